@@ -20,7 +20,8 @@ run_checks() { # label
     local label="$1" line="" p rc
     for p in $props; do
         ./check "$p" quick >/tmp/sens.$$.log 2>&1; rc=$?
-        case $rc in 0) line="$line $p:-";; 1) line="$line $p:CAUGHT";; *) line="$line $p:ERR$rc";; esac
+        at="$(grep -m1 -o 'violation in run [0-9]*' /tmp/sens.$$.log | grep -o '[0-9]*$')"
+        case $rc in 0) line="$line $p:-";; 1) line="$line $p:CAUGHT@${at:-?}";; *) line="$line $p:ERR$rc";; esac
     done
     echo "$label |$line"
     rm -f /tmp/sens.$$.log
